@@ -1,6 +1,7 @@
 package main
 
 import (
+	"context"
 	"encoding/json"
 	"errors"
 	"fmt"
@@ -315,12 +316,31 @@ func newRunEnv() *runEnv {
 }
 
 func (e *runEnv) context(data map[string]absVal) *plush.Context {
-	ctx := plush.NewContext()
+	return e.contextW(data, nil)
+}
+
+// contextW: the names in wrapped are not Set on the plush context; the root is built around a
+// context.Context that carries them (plush.NewContextWithContext).
+func (e *runEnv) contextW(data map[string]absVal, wrapped []string) *plush.Context {
+	var ctx *plush.Context
+	inWrapped := map[string]bool{}
+	if len(wrapped) > 0 {
+		var gc context.Context = context.Background()
+		for _, k := range wrapped {
+			if v, ok := data[k]; ok {
+				gc = context.WithValue(gc, k, materialize(v, e))
+				inWrapped[k] = true
+			}
+		}
+		ctx = plush.NewContextWithContext(gc)
+	} else {
+		ctx = plush.NewContext()
+	}
 	for k, f := range e.helpers {
 		ctx.Set(k, f)
 	}
 	for k, v := range data {
-		if v.T == "gofn" {
+		if v.T == "gofn" || inWrapped[k] {
 			continue
 		}
 		ctx.Set(k, materialize(v, e))
@@ -607,6 +627,8 @@ type semCase struct {
 	Shape  string              `json:"shape"`
 	NOps   int                 `json:"nops"`
 	// GenRoutes: whether the payload started as trusted HTML, and the payload
+	// names of Data that reach the template through the context.Context the root is built around
+	Wrapped []string `json:"wrapped"`
 	Trusted *bool    `json:"trusted"`
 	Payload []string `json:"payload"`
 }
@@ -639,7 +661,7 @@ func runSem(sc *semCase, src string, checkLog bool) semVerdict {
 	for k, v := range sc.Parts {
 		env.parts[k] = decodeChars(v)
 	}
-	ctx := env.context(sc.Data)
+	ctx := env.contextW(sc.Data, sc.Wrapped)
 	o := renderObserved(src, ctx)
 	v := semVerdict{Obs: o}
 	switch {
